@@ -69,6 +69,54 @@ Proof.
       eapply IH; eauto.
 Qed.
 
+(* every FINAL report of a task (success, failure, up-to-date, ignored) comes after the final
+   reports of everything the task declares in task_dep / calc_dep *)
+Definition deps12 (t : name) : list name := t_task_dep (get_task t) ++ t_calc_dep (get_task t).
+
+Inductive fordered : list event -> Prop :=
+| fo_nil : fordered []
+| fo_snoc tr e : fordered tr ->
+    (forall k, is_final_ev k e = true -> forall x, In x (deps12 k) -> finished_in tr x) ->
+    fordered (tr ++ [e]).
+
+Lemma about_final k e k' : about k e -> is_final_ev k' e = true -> k' = k.
+Proof. destruct e; simpl; intros H E; try discriminate; apply N.eqb_eq in E; congruence. Qed.
+
+Lemma fordered_app_about tr k evs :
+  fordered tr -> (forall x, In x (deps12 k) -> finished_in tr x) -> Forall (about k) evs -> fordered (tr ++ evs).
+Proof.
+  revert tr. induction evs as [|e evs IH]; intros tr Hf Hd Ha.
+  - rewrite app_nil_r. exact Hf.
+  - inversion Ha; subst.
+    replace (tr ++ e :: evs) with ((tr ++ [e]) ++ evs) by (rewrite <- app_assoc; reflexivity).
+    apply IH; auto.
+    + constructor; auto. intros k' Hk x Hx. rewrite (about_final k e k' H1 Hk) in Hx. apply Hd. exact Hx.
+    + intros x Hx. apply finished_in_app. apply Hd. exact Hx.
+Qed.
+
+Lemma fordered_app_nofinal tr evs :
+  fordered tr -> (forall e k, In e evs -> is_final_ev k e = false) -> fordered (tr ++ evs).
+Proof.
+  revert tr. induction evs as [|e evs IH]; intros tr Hf Hn.
+  - rewrite app_nil_r. exact Hf.
+  - replace (tr ++ e :: evs) with ((tr ++ [e]) ++ evs) by (rewrite <- app_assoc; reflexivity).
+    apply IH.
+    + constructor; auto. intros k Hk. rewrite (Hn e k) in Hk; [discriminate|left; reflexivity].
+    + intros e0 k0 H0. apply Hn. right. exact H0.
+Qed.
+
+Lemma fordered_split tr : fordered tr ->
+  forall pre e post k, tr = pre ++ e :: post -> is_final_ev k e = true ->
+  forall x, In x (deps12 k) -> finished_in pre x.
+Proof.
+  induction 1 as [|tr e0 Ho IH He]; intros pre e post k E Hk x Hx.
+  - destruct pre; discriminate.
+  - destruct post as [|p post'] using rev_ind.
+    + apply app_inj_tail in E. destruct E as [-> ->]. eapply He; eauto.
+    + clear IHpost'. rewrite app_comm_cons, app_assoc in E. apply app_inj_tail in E. destruct E as [-> _].
+      eapply IH; eauto.
+Qed.
+
 (* ---------- the runner invariant ---------- *)
 Definition Static (d : dstate) : Prop :=
   forall z, incl (t_task_dep (get_task z)) (n_all_task (node_of d z)) /\
@@ -422,16 +470,30 @@ Proof.
   rewrite H, app_nil_r. reflexivity.
 Qed.
 
-Lemma serial_inv fuel : forall r last,
-  RI (r_d r) (r_tr r) -> XI (r_d r) (r_tr r) -> Pre (r_d r) ->
-  (forall k, last = Some k -> st_of (r_d r) k <> SNone) ->
-  let r' := fst (serial fuel r last) in ordered (r_tr r') /\ NoDup (execs (r_tr r')).
+Lemma process_result_about r k :
+  exists evs, r_tr (process_result r k) = r_tr r ++ evs /\ Forall (about k) evs.
 Proof.
-  induction fuel as [|fuel IH]; intros r last HR HX HP Hl; cbn [Runner.serial]; cbv zeta.
-  { simpl. split; [apply (ri_ord _ _ HR)|apply (xi_nodup _ _ HX)]. }
-  assert (Hfin : forall r0, RI (r_d r0) (r_tr r0) -> XI (r_d r0) (r_tr r0) ->
-                 ordered (r_tr (finish r0)) /\ NoDup (execs (r_tr (finish r0)))).
-  { intros r0 R0 X0. split; [apply finish_ordered; apply (ri_ord _ _ R0)|rewrite finish_execs; apply (xi_nodup _ _ X0)]. }
+  unfold Runner.process_result. destruct (t_outcome (get_task k)); simpl;
+    try (eexists; split; [reflexivity|repeat constructor]).
+  exists []. rewrite app_nil_r. split; auto.
+Qed.
+
+Lemma finish_fordered r : fordered (r_tr r) -> fordered (r_tr (finish r)).
+Proof.
+  intros H. unfold finish, emit. simpl. apply fordered_app_nofinal; auto.
+  intros e k [<-|Hin]; [reflexivity|]. apply in_map_iff in Hin. destruct Hin as [y [<- _]]. reflexivity.
+Qed.
+
+Lemma serial_inv fuel : forall r last,
+  RI (r_d r) (r_tr r) -> XI (r_d r) (r_tr r) -> fordered (r_tr r) -> Pre (r_d r) ->
+  (forall k, last = Some k -> st_of (r_d r) k <> SNone) ->
+  let r' := fst (serial fuel r last) in ordered (r_tr r') /\ NoDup (execs (r_tr r')) /\ fordered (r_tr r').
+Proof.
+  induction fuel as [|fuel IH]; intros r last HR HX HF HP Hl; cbn [Runner.serial]; cbv zeta.
+  { simpl. split; [apply (ri_ord _ _ HR)|split; [apply (xi_nodup _ _ HX)|exact HF]]. }
+  assert (Hfin : forall r0, RI (r_d r0) (r_tr r0) -> XI (r_d r0) (r_tr r0) -> fordered (r_tr r0) ->
+                 ordered (r_tr (finish r0)) /\ NoDup (execs (r_tr (finish r0))) /\ fordered (r_tr (finish r0))).
+  { intros r0 R0 X0 F0. split; [apply finish_ordered; apply (ri_ord _ _ R0)|split; [rewrite finish_execs; apply (xi_nodup _ _ X0)|apply finish_fordered; exact F0]]. }
   destruct (r_stop r). { cbn [fst]. apply Hfin; auto. }
   destruct (disp_send tasks wake_rank calc_rank (S fuel) (r_d r) last) as [y d] eqn:Ed.
   pose proof (disp_send_spec tasks wake_rank calc_rank _ _ _ _ _ (ri_inv _ _ HR) HP (ri_res _ _ HR) (ri_q _ _ HR) Hl Ed) as Hpost.
@@ -445,8 +507,15 @@ Proof.
     pose proof (select_task_execs tasks continue_ always _ _ _ _ Es) as Ex1. simpl in Ex1.
     assert (X1 : XI (r_d r1) (r_tr r1)).
     { destruct HX' as [xa xb]. split; rewrite Ex1; auto. intros z Hz. eapply spent_pc; [apply Pc1|]. apply xa. exact Hz. }
+    assert (Hd12 : forall x, In x (deps12 k) -> finished_in (r_tr r) x).
+    { intros x Hx. apply (ri_link _ _ HR'). eapply handed_static_final; eauto. apply (ri_static _ _ HR'). }
+    assert (F1 : fordered (r_tr r1)).
+    { destruct (select_task_about tasks continue_ always _ _ _ _ Es) as [evs [Eq Ha]]. simpl in Eq. rewrite Eq.
+      eapply fordered_app_about; eauto. }
     destruct b.
     + assert (R2 : RI (r_d (start_task r1 k)) (r_tr (start_task r1 k))) by (apply start_task_RI; auto).
+      assert (F2 : fordered (r_tr (start_task r1 k))).
+      { unfold Runner.start_task. simpl. apply fordered_app_nofinal; auto. intros e k0 [<-|[]]. reflexivity. }
       assert (Hk : ~ In k (execs (r_tr r))) by (intro H; apply Hns; apply (xi_spent _ _ HX); exact H).
       assert (X2 : XI (r_d (start_task r1 k)) (r_tr (start_task r1 k))).
       { unfold Runner.start_task. simpl. destruct X1 as [xa xb]. split; rewrite execs_app; simpl.
@@ -463,13 +532,17 @@ Proof.
         -- apply IH; auto.
            ++ destruct X2 as [xa xb]. split; rewrite process_result_execs; auto.
               intros z Hz. eapply spent_pc; [apply process_result_pc|]. apply xa. exact Hz.
+           ++ destruct (process_result_about (start_task r1 k) k) as [evs [Eq Ha]]. rewrite Eq.
+              eapply fordered_app_about; eauto. intros x Hx. unfold Runner.start_task. simpl.
+              apply finished_in_app. apply D1; auto. unfold static_deps. unfold deps12 in Hx.
+              rewrite app_assoc. apply in_app_iff. left. exact Hx.
            ++ intros k' E. inversion E; subst. exact S3.
         -- unfold Runner.is_interrupt in Ei. rewrite Hint in Ei. discriminate.
     + apply IH; auto. intros k' E. inversion E; subst. exact S1.
   - cbn [fst]. apply Hfin; auto.
   - cbn [fst]. apply Hfin; auto.
   - cbn [fst]. apply Hfin; auto.
-  - cbn [fst]. split; [apply (ri_ord _ _ HR')|apply (xi_nodup _ _ HX')].
+  - cbn [fst]. split; [apply (ri_ord _ _ HR')|split; [apply (xi_nodup _ _ HX')|exact HF]].
 Qed.
 
 Lemma RI_init sel : RI (disp_init sel) [].
@@ -491,11 +564,12 @@ Lemma XI_init sel : XI (disp_init sel) [].
 Proof. split; simpl; [intros k []|constructor]. Qed.
 
 Lemma serial_init_inv fuel sel :
-  let r' := fst (serial fuel (r_init sel) None) in ordered (r_tr r') /\ NoDup (execs (r_tr r')).
+  let r' := fst (serial fuel (r_init sel) None) in ordered (r_tr r') /\ NoDup (execs (r_tr r')) /\ fordered (r_tr r').
 Proof.
   apply serial_inv; simpl.
   - apply RI_init.
   - apply XI_init.
+  - constructor.
   - intros z Hz. simpl in Hz. discriminate.
   - intros k E'. discriminate.
 Qed.
@@ -518,6 +592,16 @@ Proof.
   destruct (serial fuel (r_init sel) None) as [r s] eqn:E. simpl in *.
   rewrite execs_app. replace (execs (stop_marker s)) with (@nil name) by (destruct s; reflexivity).
   rewrite app_nil_r. apply H.
+Qed.
+
+Theorem serial_final_order fuel sel :
+  fordered (fst (run_serial tasks wake_rank calc_rank continue_ always fuel sel)).
+Proof.
+  unfold run_serial.
+  pose proof (serial_init_inv fuel sel) as H. cbv zeta in H.
+  destruct (serial fuel (r_init sel) None) as [r s] eqn:E. simpl in *.
+  apply fordered_app_nofinal; [apply H|]. intros e k Hin. destruct s; simpl in Hin; try contradiction;
+    destruct Hin as [<-|[]]; reflexivity.
 Qed.
 
 End R.
